@@ -59,6 +59,8 @@ pub const NEW_REFERENCE_EXT: u8 = 114;
 pub const NEW_PID_EXT: u8 = 88;
 pub const NEWER_REFERENCE_EXT: u8 = 90;
 pub const V4_PORT_EXT: u8 = 120;
+/// Port with a 32-bit id and 32-bit creation (emitted by OTP 23-25, still accepted by OTP 26+)
+pub const NEW_PORT_EXT: u8 = 89;
 
 // Local-only encoding (OTP 26+)
 pub const LOCAL_EXT: u8 = 121;
